@@ -80,8 +80,19 @@ def cases(tier):
 
 
 def run(ctx):
+    import contracts.corecircuits     # noqa: F401
+    from pyvc.contract import REGISTRY
+    from pyvc import run as prun
+    for mod in ('contracts.wire', 'contracts.corecircuits'):
+        cs = [c for c in REGISTRY.values() if 'C14' in c.props and c.__class__.__module__ == mod]
+        prun.run_contracts(ctx, cs, mod)
+    ctx.assume('builder model (contracts/wiremodel.py); bitfield_update: exact-value clause only without an '
+               'explicit end (quick tier runs the end=None cases; explicit end in the thorough tier, length / '
+               'range / refusal / WF only)')
     combfam.run_comb_family(ctx, 'C14.helpers', cases(ctx.tier), FUNCS,
                             'helper does not deliver exactly the documented bits')
     ctx.assume('z3 soundness; spec/netsem.py; sparse_mux/enum_mux without default: unlisted indices are don\'t-cares (precondition)')
-    return ctx.finish('other', './check C14', ['z3', 'spec/netsem.py', 'elab/n2smt.py'],
-                      'bounded stand-in: each helper elaborated by the real code per shape; all data values by SMT')
+    return ctx.finish('other', './check C14', ['z3', 'pyvc', 'spec/netsem.py', 'elab/n2smt.py'],
+                      'P: select, w[i] / w[lo:hi], concat, bitfield_update (len, den) contracts for all widths and '
+                      'values; bounded stand-in: each helper elaborated by the real code per shape; all data '
+                      'values by SMT')
